@@ -214,15 +214,16 @@ Proof.
       destruct (L HWx) as (_ & S & _).
       constructor; [| apply (AC_shift (s, []) sx); try reflexivity; exact C | exact S].
       eapply JE_trans; [|exact J]. apply JE_same_ext; reflexivity.
-    + unfold on_retract_response in H. destruct (retract_response_states _ w ids []) as [c' groups] eqn:Er.
-      pose proof (send_redirected_snd _ _ _ H) as Es. cbn [snd st_core] in Es. subst outs.
+    + pose proof H as H0. unfold on_retract_response in H. destruct (retract_response_states _ w ids []) as [c' groups] eqn:Er.
+      apply bind_ok in H. destruct H as (s2 & H & H2).
+      assert (Eo : outs = snd s2) by (destruct (retract_wakes _ _ _ _); inversion H2; subst; reflexivity).
+      pose proof (send_redirected_snd _ _ _ H) as Es. cbn [snd st_core] in Es. rewrite Es in Eo. subst outs.
       apply PLAIN_quiet; try reflexivity.
-      * change (hq_of (s', [OUp w (URetractResponse ids)]) = hq_of (st_core (with_procs s (set_proc (s_procs s) (wp_up p rest)), [OUp w (URetractResponse ids)]) c')).
-        exact (send_redirected_same _ _ _ H).
+      * exact (on_retract_response_same _ _ _ _ H0).
       * apply scr_dsub.
         match goal with |- scr _ (s_core s') => change (s_core s') with (core_of (s', [OUp w (URetractResponse ids)])) end.
-        match type of Er with retract_response_states (core_of ?s1) _ _ _ = _ =>
-          apply (on_retract_response_scr s1 w ids); unfold on_retract_response; rewrite Er; exact H end.
+        match type of H0 with on_retract_response ?s1 _ _ = _ =>
+          apply (on_retract_response_scr s1 w ids); exact H0 end.
   - (* scheduling *)
     destruct (c_flag (s_core s)); [|discriminate].
     pose proof (run_scheduling_snd _ _ _ H) as Es. cbn [snd] in Es. subst outs.
